@@ -935,7 +935,8 @@ ReceiveLoop(ep, fs, evs, lim) ==
             ELSE ReceiveLoop(hbr.ep, <<hbr.f>> \o Tail(fs), evs, lim)
   ELSE IF ep.hb # <<>> /\ fs[1].t # "PREFACE"
   THEN \* any other frame while a header block is being collected: refused by the frame buffer after it was removed
-       [ep |-> [Terminate(ep, 1) EXCEPT !.pend = Tail(fs)], r |-> PE, ev |-> <<>>]
+       \* (unless the frame parser refuses it first, which happens before it is removed)
+       [ep |-> [Terminate(ep, 1) EXCEPT !.pend = IF BadStreamZero(fs[1]) THEN fs ELSE Tail(fs)], r |-> PE, ev |-> <<>>]
   ELSE IF fs[1].t = "PREFACE"
   THEN \* the 24 octets of a client preface read as a frame header announce a frame of 0x505249 octets; the length is only
        \* checked once a whole frame is buffered, so the parser waits for the rest and nothing behind it is ever looked at
